@@ -274,6 +274,49 @@ func c19xStreamDoc() (file []byte, extents [][2]int) {
 	return file, extents
 }
 
+// c19xRecoverDoc: streams whose extent has to be RECOVERED (no usable /Length: missing, too small,
+// too large, an indirect reference to a missing object), raw and Flate, the data ending in LF, CR LF
+// or no end-of-line, "endstream" behind LF or CR LF.  There the search for endstream, the two-byte
+// probe of trimTrailingEOL and the reads of endstreamAt are ReadAt calls of their own; a fault at
+// one of them that is swallowed gives a stream one or two bytes too long (or short) with a nil error:
+// step "stream-extent <n>" (declared extent and raw bytes) — C19-io-error-swallowed-pdf-stream-extent.
+func c19xRecoverDoc() (file []byte, raws []int) {
+	objs := map[int]string{
+		1: "<< /Type /Catalog /Pages 2 0 R >>",
+		2: "<< /Type /Pages /Kids [3 0 R] /Count 1 >>",
+		3: "<< /Type /Page /Parent 2 0 R /MediaBox [0 0 10 10] >>",
+	}
+	n := 4
+	for _, lk := range []string{"missing", "small", "large", "indirect"} {
+		for _, flate := range []bool{false, true} {
+			for _, ending := range []string{"\n", "\r\n", ""} {
+				body := []byte(fmt.Sprintf("recovered stream %d: %s", n, strings.Repeat("0123456789abcdef ", 20)) + "." + ending)
+				dict := ""
+				if flate {
+					body = append(c05Zlib(body[:len(body)-len(ending)]), ending...) // (bytes behind the zlib stream are ignored by the decoder, they belong to the extent)
+					dict = "/Filter /FlateDecode "
+				}
+				switch lk {
+				case "small":
+					dict += fmt.Sprintf("/Length %d", len(body)/2)
+				case "large":
+					dict += fmt.Sprintf("/Length %d", len(body)+40)
+				case "indirect":
+					dict += "/Length 999 0 R"
+				}
+				eol := "\n"
+				if n%2 == 1 {
+					eol = "\r\n"
+				}
+				objs[n] = fmt.Sprintf("<< %s >>\nstream\n%s%sendstream", dict, body, eol)
+				raws = append(raws, n)
+				n++
+			}
+		}
+	}
+	return c19xBuild(objs, ""), raws
+}
+
 type c19xNopCloser struct{ io.Writer }
 
 func (c19xNopCloser) Close() error { return nil }
@@ -306,7 +349,7 @@ func c19xMetaSteps(r *pdf.Reader, add func(name, repr string, err error)) {
 }
 
 // c19xSession: path 'N' NewReader, 'Q' SequentialScan + MakeReader; members: objects to fetch.
-func c19xSession(src *c19Src, path byte, eh pdf.ReaderErrorHandling, members, streams []int) (res []c19Result) {
+func c19xSession(src *c19Src, path byte, eh pdf.ReaderErrorHandling, members, streams, raws []int) (res []c19Result) {
 	add := func(name, repr string, err error) {
 		if err != nil {
 			repr = "error:" + robClass(err)
@@ -316,11 +359,42 @@ func c19xSession(src *c19Src, path byte, eh pdf.ReaderErrorHandling, members, st
 	opt := &pdf.ReaderOptions{ErrorHandling: eh}
 	var r *pdf.Reader
 	var err error
+	rawStep := func(n int, o pdf.Object, err error) {
+		name := fmt.Sprintf("stream-extent %d", n)
+		st, _ := o.(*pdf.Stream)
+		if err != nil || st == nil {
+			add(name, "no stream", err)
+			return
+		}
+		raw, err := io.ReadAll(st.NewReader())
+		add(name, fmt.Sprintf("length=%d data=%d:%x", st.Length(), len(raw), sha1.Sum(raw)), err)
+	}
 	if path == 'N' {
 		r, err = pdf.NewReader(src, int64(len(src.data)), opt)
 	} else {
 		var fi *pdf.FileInfo
 		fi, err = pdf.SequentialScan(src, int64(len(src.data)))
+		if err == nil && path == 'R' {
+			// SequentialScan + FileInfo.Read, without a Reader
+			add("open", "ok", nil)
+			for _, n := range raws {
+				var last *pdf.FileObject
+				for _, sec := range fi.Sections {
+					for _, fo := range sec.Objects {
+						if fo.Reference == pdf.NewReference(uint32(n), 0) {
+							last = fo
+						}
+					}
+				}
+				if last == nil {
+					add(fmt.Sprintf("stream-extent %d", n), "not located", nil)
+					continue
+				}
+				o, err := fi.Read(last)
+				rawStep(n, o, err)
+			}
+			return res
+		}
 		if err == nil {
 			r, err = fi.MakeReader(opt)
 		}
@@ -341,6 +415,23 @@ func c19xSession(src *c19Src, path byte, eh pdf.ReaderErrorHandling, members, st
 		// what a permissive caller makes of it
 		if _, err2 := pdf.Optional(o, err); err != nil && err2 == nil && errors.Is(err, errInjected) {
 			add(fmt.Sprintf("optional %d", n), "", fmt.Errorf("pdf.Optional turns the I/O failure into a missing object: %w", &pdf.MalformedFileError{Err: err}))
+		}
+	}
+	for _, n := range raws {
+		o, err := r.Get(pdf.NewReference(uint32(n), 0), true)
+		rawStep(n, o, err)
+		if st, ok := o.(*pdf.Stream); ok && err == nil {
+			name := fmt.Sprintf("decode-recovered %d", n)
+			rd, err := pdf.DecodeStream(r, nil, st)
+			if err != nil {
+				add(name, "", err)
+				continue
+			}
+			data, err := io.ReadAll(rd)
+			if cerr := rd.Close(); err == nil {
+				err = cerr
+			}
+			add(name, fmt.Sprintf("%d:%x", len(data), sha1.Sum(data)), err)
 		}
 	}
 	for _, n := range streams {
@@ -370,7 +461,7 @@ func c19xSession(src *c19Src, path byte, eh pdf.ReaderErrorHandling, members, st
 	return res
 }
 
-func c19xGuarded(data []byte, mode byte, k int, path byte, eh pdf.ReaderErrorHandling, members, streams []int) (src *c19Src, res []c19Result, fatal string) {
+func c19xGuarded(data []byte, mode byte, k int, path byte, eh pdf.ReaderErrorHandling, members, streams, raws []int) (src *c19Src, res []c19Result, fatal string) {
 	src = &c19Src{data: data, mode: mode, k: k}
 	type out struct {
 		res   []c19Result
@@ -383,7 +474,7 @@ func c19xGuarded(data []byte, mode byte, k int, path byte, eh pdf.ReaderErrorHan
 				ch <- out{nil, fmt.Sprintf("panic: %v\n%s", e, c19TopFrames(string(debug.Stack())))}
 			}
 		}()
-		ch <- out{c19xSession(src, path, eh, members, streams), ""}
+		ch <- out{c19xSession(src, path, eh, members, streams, raws), ""}
 	}()
 	select {
 	case o := <-ch:
@@ -440,6 +531,7 @@ type c19xDoc struct {
 	members []int
 	streams []int    // object numbers of c19xStreamNames (4+index)
 	extents [][2]int // where their data is in the file
+	raws    []int    // streams whose extent is recovered (c19xRecoverDoc)
 }
 
 func c19xDocs() []c19xDoc {
@@ -450,6 +542,9 @@ func c19xDocs() []c19xDoc {
 	for _, ch := range [][]string{{"AHx", "Fl"}, {"A85", "Fl"}, {"AHx", "A85", "Fl"}, {"RL", "AHx"}, {"Fl"}} {
 		ds = append(ds, c19xDoc{name: "objstm-" + strings.Join(ch, "+"), data: c19xObjStmDoc(ch), members: []int{6, 7, 8, 9}})
 	}
+	rd := c19xDoc{name: "recover"}
+	rd.data, rd.raws = c19xRecoverDoc()
+	ds = append(ds, rd)
 	sd := c19xDoc{name: "streams"}
 	sd.data, sd.extents = c19xStreamDoc()
 	for i := range c19xStreamNames {
@@ -480,11 +575,11 @@ func c19xJudge(d *c19xDoc, path byte, eh int, mode byte, k int) (reached bool, k
 		}
 		d = &d2
 	}
-	_, base, fatal := c19xGuarded(d.data, 'n', 0, path, pdf.ReaderErrorHandling(eh), d.members, d.streams)
+	_, base, fatal := c19xGuarded(d.data, 'n', 0, path, pdf.ReaderErrorHandling(eh), d.members, d.streams, d.raws)
 	if fatal != "" {
 		return true, "C19-faultfree-" + strings.Fields(fatal)[0], fatal
 	}
-	src, got, fatal := c19xGuarded(d.data, mode, k, path, pdf.ReaderErrorHandling(eh), d.members, d.streams)
+	src, got, fatal := c19xGuarded(d.data, mode, k, path, pdf.ReaderErrorHandling(eh), d.members, d.streams, d.raws)
 	if fatal != "" {
 		return true, "C19-" + strings.Fields(fatal)[0], fatal
 	}
@@ -535,15 +630,21 @@ func robC19xRun(c *Ctx) {
 				}
 			}
 		}
-		for _, path := range []byte{'N', 'Q'} {
+		for _, path := range []byte{'N', 'Q', 'R'} {
 			for eh := 0; eh < 3; eh++ {
 				if path == 'Q' && eh != 1 && !c.Thorough {
 					continue
 				}
-				if d.streams != nil && !(path == 'N' && eh == 1) && !c.Thorough {
+				if path == 'R' && (eh != 1 || d.raws == nil) {
 					continue
 				}
-				src, base, fatal := c19xGuarded(d.data, 'n', 0, path, pdf.ReaderErrorHandling(eh), d.members, d.streams)
+				if (d.streams != nil || d.raws != nil) && path == 'N' && eh != 1 && !c.Thorough {
+					continue
+				}
+				if d.streams != nil && path != 'N' && !c.Thorough {
+					continue
+				}
+				src, base, fatal := c19xGuarded(d.data, 'n', 0, path, pdf.ReaderErrorHandling(eh), d.members, d.streams, d.raws)
 				if fatal != "" {
 					c.Violate("c19x", "C19-faultfree-"+strings.Fields(fatal)[0], fatal, fmt.Sprintf("%s %c %d n 0", d.name, path, eh))
 					continue
